@@ -24,7 +24,8 @@ def shards(tier, seed):
         rels = list(relations(p, s))
         n = 1 if len(rels) < 20 else (12 if tier == "quick" else 48)
         for i in range(n):
-            out.append(("align", tier, p, s, rels[i::n]))
+            if rels[i::n]:
+                out.append(("align", tier, p, s, rels[i::n]))
     return out
 
 
